@@ -69,3 +69,35 @@ V('C01', 'revert-required-cast', 'edb/edgeql/codegen.py', 'edb.edgeql.codegen.Ed
   "        elif node.cardinality_mod is qlast.CardinalityModifier.Required:\n            self.write('required ')\n", '', 'C01.R9', 'visit_TypeCast:cardinality_mod')
 V('C01', 'revert-left-operand-parens', 'edb/edgeql/codegen.py', 'edb.edgeql.codegen.EdgeQLSourceGenerator.visit_BinOp',
   '        self._visit_left_operand(node.left)\n', '        self.visit(node.left)\n', 'C01.R10', 'visit_BinOp:left-operand')
+V('C01', 'revert-database-template', 'edb/edgeql/codegen.py', 'edb.edgeql.codegen.EdgeQLSourceGenerator.visit_CreateDatabase',
+  '''            if node.template is not None:
+
+                def after_name() -> None:
+                    self._write_keywords(' FROM ')
+                    assert node.template
+                    self.visit(node.template)
+                self._visit_CreateObject(
+                    node, 'DATABASE', after_name=after_name)
+            else:
+                self._visit_CreateObject(node, 'DATABASE')''', '''            self._visit_CreateObject(node, 'DATABASE')''', 'C01.R2', 'CreateDatabase.template@production')
+V('C01', 'revert-detached-parens', 'edb/edgeql/codegen.py', 'edb.edgeql.codegen.EdgeQLSourceGenerator.visit_DetachedExpr',
+  '''        parenthesize = (
+            isinstance(node.expr, qlast.Path) and len(node.expr.steps) > 1
+        )
+        if parenthesize:
+            self.write('(')
+        self.visit(node.expr)
+        if parenthesize:
+            self.write(')')''', '        self.visit(node.expr)', 'C01.R10', 'visit_DetachedExpr:path-operand')
+V('C01', 'keyword-prefix-ops-left-bare', 'edb/edgeql/codegen.py', 'edb.edgeql.codegen.EdgeQLSourceGenerator._visit_left_operand',
+  '        if isinstance(node, qlast.UnaryOp):', '        if isinstance(node, qlast.UnaryOp) and not str(node.op).isalnum():', 'C01.R10', 'left-operand')
+V('C01', 'if-not-exists-before-extending', 'edb/edgeql/codegen.py', 'edb.edgeql.codegen.EdgeQLSourceGenerator._visit_CreateObject',
+  '''        if after_name:
+            after_name()
+        if node.create_if_not_exists and not self.sdlmode:
+            self._write_keywords(' IF NOT EXISTS')
+''', '''        if node.create_if_not_exists and not self.sdlmode:
+            self._write_keywords(' IF NOT EXISTS')
+        if after_name:
+            after_name()
+''', 'C01.R11', 'extending-before-if-not-exists')
